@@ -2,6 +2,8 @@ package verifrt
 
 import (
 	"fmt"
+	"os"
+	"runtime/debug"
 	"sort"
 	"time"
 )
@@ -30,6 +32,39 @@ type ExploreOpts struct {
 	// at least SplitAt unexplored subtree roots are pending; they are returned in
 	// ExploreStats.Frontier for distribution over workers.
 	SplitAt int
+	// MaxCache bounds the number of trace keys kept for pruning (0: 6 million). Beyond it new keys are
+	// not remembered any more: the search stays exhaustive, it only prunes less.
+	MaxCache int
+	// MemLimitMB: when the process's resident set exceeds it, the cache is dropped once; if that does not
+	// help the exploration stops and is reported as incomplete (0: 2500).
+	MemLimitMB int
+}
+
+// pend is one unexplored alternative: the first i choices of base, then alt. base is shared by all
+// alternatives discovered in one execution, so the stack costs O(depth) per execution, not O(depth^2).
+type pend struct {
+	base []int32
+	i    int
+	alt  int32
+}
+
+func (p pend) prefix() []int {
+	out := make([]int, p.i+1)
+	for j := 0; j < p.i; j++ {
+		out[j] = int(p.base[j])
+	}
+	out[p.i] = int(p.alt)
+	return out
+}
+
+func rssMB() int {
+	b, err := os.ReadFile("/proc/self/statm")
+	if err != nil {
+		return 0
+	}
+	var size, rss int
+	fmt.Sscan(string(b), &size, &rss)
+	return rss * (os.Getpagesize() / 1024) / 1024
 }
 
 type Violation struct {
@@ -56,6 +91,9 @@ type ExploreStats struct {
 	PerThreadMax map[string]int
 	Sample       []string
 	Frontier     [][]int `json:",omitempty"`
+	CacheCapped  bool     `json:",omitempty"` // the pruning cache reached MaxCache (less pruning, same coverage)
+	CacheDropped int      `json:",omitempty"` // times the cache was dropped under memory pressure
+	MemStop      bool     `json:",omitempty"` // stopped because of MemLimitMB (Complete is false)
 }
 
 type cacheKey struct {
@@ -70,29 +108,70 @@ func ExploreDFS(run RunFunc, o ExploreOpts) *ExploreStats {
 	if o.KeepViol == 0 {
 		o.KeepViol = 20
 	}
+	if o.MaxCache == 0 {
+		o.MaxCache = 6000000
+	}
+	if o.MemLimitMB == 0 {
+		o.MemLimitMB = 2500
+	}
 	seen := map[cacheKey]struct{}{}
 	finals := map[h128]struct{}{}
-	stack := o.Roots
-	if stack == nil {
-		stack = [][]int{{}}
+	nseen, nfinals := 0, 0 // counted separately: the maps may be capped or dropped
+	var stack []pend
+	roots := o.Roots
+	if roots == nil {
+		roots = [][]int{{}}
 	}
-	stack = append([][]int(nil), stack...)
+	for _, r := range roots {
+		if len(r) == 0 {
+			stack = append(stack, pend{i: -1})
+			continue
+		}
+		b := make([]int32, len(r))
+		for j, c := range r {
+			b[j] = int32(c)
+		}
+		stack = append(stack, pend{base: b, i: len(r) - 1, alt: int32(r[len(r)-1])})
+	}
 	for len(stack) > 0 {
 		if o.SplitAt > 0 && len(stack) >= o.SplitAt {
-			st.Frontier = stack
+			for _, p := range stack {
+				if p.i < 0 {
+					st.Frontier = append(st.Frontier, []int{})
+				} else {
+					st.Frontier = append(st.Frontier, p.prefix())
+				}
+			}
 			break
 		}
 		if (o.MaxExec > 0 && st.Executions >= o.MaxExec) || (!o.Deadline.IsZero() && st.Executions%64 == 0 && time.Now().After(o.Deadline)) {
 			st.Complete = false
 			break
 		}
-		var prefix []int
+		if st.Executions%512 == 511 && rssMB() > o.MemLimitMB {
+			if st.CacheDropped == 0 {
+				seen = map[cacheKey]struct{}{}
+				finals = map[h128]struct{}{}
+				st.CacheDropped++
+				debug.FreeOSMemory()
+			} else if rssMB() > o.MemLimitMB*3/2 {
+				st.MemStop = true
+				st.Complete = false
+				break
+			}
+		}
+		var pp pend
 		if o.SplitAt > 0 {
-			prefix = stack[0]
+			pp = stack[0]
 			stack = stack[1:]
 		} else {
-			prefix = stack[len(stack)-1]
+			pp = stack[len(stack)-1]
+			stack[len(stack)-1] = pend{}
 			stack = stack[:len(stack)-1]
+		}
+		var prefix []int
+		if pp.i >= 0 {
+			prefix = pp.prefix()
 		}
 		out := run(Config{Replay: prefix, TimersFree: o.TimersFree, MaxTicks: o.MaxTicks, Horizon: o.Horizon})
 		res := out.Res
@@ -118,20 +197,34 @@ func ExploreDFS(run RunFunc, o ExploreOpts) *ExploreStats {
 		if res.Horizon {
 			st.Horizons++
 		}
-		finals[res.FinalKey] = struct{}{}
+		if _, ok := finals[res.FinalKey]; !ok {
+			nfinals++
+			if len(finals) < o.MaxCache {
+				finals[res.FinalKey] = struct{}{}
+			}
+		}
 		st.Outcomes[out.Digest]++
 		cost := 0
+		var base []int32
 		for i, cp := range res.Choices {
 			if i >= len(prefix) {
 				key := cacheKey{k: cp.Key}
 				if o.Bound >= 0 {
 					key.run, key.cost = cp.Run, cost
 				}
-				if _, dup := seen[key]; dup && o.Cache {
-					st.Pruned++
-					break
+				if _, dup := seen[key]; dup {
+					if o.Cache {
+						st.Pruned++
+						break
+					}
+				} else {
+					nseen++
+					if len(seen) < o.MaxCache {
+						seen[key] = struct{}{}
+					} else {
+						st.CacheCapped = true
+					}
 				}
-				seen[key] = struct{}{}
 				for alt := cp.N - 1; alt >= 0; alt-- {
 					if alt == cp.Chosen {
 						continue
@@ -139,12 +232,13 @@ func ExploreDFS(run RunFunc, o ExploreOpts) *ExploreStats {
 					if o.Bound >= 0 && cost+int(cp.Costs[alt]) > o.Bound {
 						continue
 					}
-					np := make([]int, i+1)
-					for j := 0; j < i; j++ {
-						np[j] = res.Choices[j].Chosen
+					if base == nil {
+						base = make([]int32, len(res.Choices))
+						for j := range res.Choices {
+							base[j] = int32(res.Choices[j].Chosen)
+						}
 					}
-					np[i] = alt
-					stack = append(stack, np)
+					stack = append(stack, pend{base: base, i: i, alt: int32(alt)})
 				}
 			}
 			cost += int(cp.Costs[cp.Chosen])
@@ -162,7 +256,7 @@ func ExploreDFS(run RunFunc, o ExploreOpts) *ExploreStats {
 			}
 		}
 	}
-	st.States = len(seen) + len(finals)
+	st.States = nseen + nfinals
 	sort.SliceStable(st.Violations, func(a, b int) bool { return st.Violations[a].Deviations < st.Violations[b].Deviations })
 	return st
 }
@@ -215,4 +309,7 @@ func (a *ExploreStats) Merge(b *ExploreStats) {
 	}
 	a.Diverged = append(a.Diverged, b.Diverged...)
 	a.Complete = a.Complete && b.Complete
+	a.CacheCapped = a.CacheCapped || b.CacheCapped
+	a.CacheDropped += b.CacheDropped
+	a.MemStop = a.MemStop || b.MemStop
 }
